@@ -29,7 +29,10 @@ THEOREMS_BY_PROP = {
             "DepLogic.C12.singleSound_names", "DepLogic.C12.only_final", "DepLogic.C12.exclude_final"],
     "C15": ["DepLogic.C15.flatten_nodup", "DepLogic.C15.mkMulti_nodup", "DepLogic.C15.mkUnion_nodup",
             "DepLogic.C15.multiOf_exit", "DepLogic.C15.unionOfList_exit", "DepLogic.C15.and_neutral",
-            "DepLogic.C15.or_neutral"]}
+            "DepLogic.C15.or_neutral", "DepLogic.C15.singleAnd_pair_distinct", "DepLogic.C15.singleOr_pair_distinct",
+            "DepLogic.C15.flatten_pair", "DepLogic.C15.and_single_shape", "DepLogic.C15.or_single_shape",
+            "DepLogic.C15.multiOf_flat", "DepLogic.C15.unionOfList_flat", "DepLogic.C15.intersection_flat",
+            "DepLogic.C15.unionOf_flat", "DepLogic.C15.and_flat", "DepLogic.C15.or_flat"]}
 THEOREMS: list[str] = []
 
 
